@@ -497,6 +497,9 @@ func (w *walker) expr(fb *funcBody, e ast.Node, held []heldLock, depth int, writ
 				w.access(w.fieldOfExpr(fb.pkg, x), false, held)
 			}
 		case *ast.UnaryExpr:
+			if x.Op == token.ARROW { // <-ch outside a select: a blocking receive
+				w.chanOp(fb.pkg, "recv", x.X, held)
+			}
 			if x.Op == token.AND { // &h.ipHeartBeat etc.: address taken for an atomic operation
 				if _, ok := x.X.(*ast.SelectorExpr); ok {
 					if w.fieldOfExpr(fb.pkg, x.X) == "" {
@@ -668,13 +671,9 @@ func (w *walker) stmt(fb *funcBody, s ast.Stmt, held []heldLock, depth int, defe
 		w.access(w.fieldOfExpr(pkg, b), true, held)
 		w.access(w.fieldOfExpr(pkg, b), false, held)
 		return w.expr(fb, x.X, held, depth, map[ast.Expr]bool{b: true})
-	case *ast.SendStmt:
+	case *ast.SendStmt: // outside a select: a BLOCKING send
 		held = w.expr(fb, x.Value, held, depth, nil)
-		if ch := w.chanName(pkg, x.Chan); ch != "" {
-			w.locks[heldText(held)+">send:"+ch] = true
-		} else {
-			w.sa.unrec["send:"+exprText(x.Chan)]++
-		}
+		w.chanOp(pkg, "send", x.Chan, held)
 		return held
 	case *ast.GoStmt:
 		for _, a := range x.Call.Args {
@@ -774,9 +773,56 @@ func (w *walker) stmt(fb *funcBody, s ast.Stmt, held []heldLock, depth int, defe
 		held = w.stmt(fb, x.Assign, held, depth, defers)
 		return w.clauses(fb, x.Body, held, depth, defers)
 	case *ast.SelectStmt:
+		// a select with a default clause never blocks: its sends are "trysend", its receives are not recorded;
+		// without default the select blocks on its communications
+		hasDefault := false
+		for _, c := range x.Body.List {
+			if cc, ok := c.(*ast.CommClause); ok && cc.Comm == nil {
+				hasDefault = true
+			}
+		}
+		for _, c := range x.Body.List {
+			cc, ok := c.(*ast.CommClause)
+			if !ok || cc.Comm == nil {
+				continue
+			}
+			switch cm := cc.Comm.(type) {
+			case *ast.SendStmt:
+				held = w.expr(fb, cm.Value, held, depth, nil)
+				if hasDefault {
+					w.chanOp(pkg, "trysend", cm.Chan, held)
+				} else {
+					w.chanOp(pkg, "send", cm.Chan, held)
+				}
+			case *ast.ExprStmt:
+				if u, ok := cm.X.(*ast.UnaryExpr); ok && u.Op == token.ARROW && !hasDefault {
+					w.chanOp(pkg, "recv", u.X, held)
+				}
+			case *ast.AssignStmt:
+				if len(cm.Rhs) == 1 {
+					if u, ok := cm.Rhs[0].(*ast.UnaryExpr); ok && u.Op == token.ARROW && !hasDefault {
+						w.chanOp(pkg, "recv", u.X, held)
+					}
+				}
+			}
+		}
 		return w.clauses(fb, x.Body, held, depth, defers)
 	}
 	return held
+}
+
+// chanOp records a channel operation with its held-lock context.  A channel the model does not know is
+// ignored when no lock is held, and recorded as "?" (which no template has) when a lock is held.
+func (w *walker) chanOp(pkg *staticPkg, kind string, ch ast.Expr, held []heldLock) {
+	name := w.chanName(pkg, ch)
+	if name == "" {
+		if len(held) == 0 {
+			w.sa.unrec[kind+":"+exprText(ch)]++
+			return
+		}
+		name = "?" + exprText(ch)
+	}
+	w.locks[heldText(held)+">"+kind+":"+name] = true
 }
 
 func (w *walker) clauses(fb *funcBody, body *ast.BlockStmt, held []heldLock, depth int, defers *[]*ast.CallExpr) []heldLock {
@@ -792,8 +838,7 @@ func (w *walker) clauses(fb *funcBody, body *ast.BlockStmt, held []heldLock, dep
 			}
 			list = cc.Body
 		case *ast.CommClause:
-			h = w.stmt(fb, cc.Comm, h, depth, defers)
-			list = cc.Body
+			list = cc.Body // the communication itself was recorded by the select case above
 		}
 		blk := &ast.BlockStmt{List: list}
 		h = w.block(fb, blk, h, depth, defers)
